@@ -394,6 +394,14 @@ def run(ck: Check):
 
 def replay(ck: Check, obj) -> int:
     rp = obj.get("replay") or obj["no_longer_checks"][0]["detail"]
+    if "case" not in rp:
+        # one of the fixed cases for the !Env / !TextFile / !BinaryFile tags: run them again
+        before = len(ck.failures)
+        check_tags(ck)
+        for f in ck.failures[before:]:
+            print("ORACLE:", f["signature"], "-", f["what"][:300])
+        print("tag cases:", "FAIL" if len(ck.failures) > before else "hold")
+        return 1 if len(ck.failures) > before else 0
     case = rp["case"]
     ob = run_cases(ck, [case])[0]
     print("command:", impl_payload(case))
